@@ -187,6 +187,51 @@ def _partition(d):
     return None
 
 
+def check_shared(case):
+    """two textgrids that hold the SAME tier object; a mutator on the first; the second is written: the file carries the second textgrid's
+    names, order and content (what tg2.tierNames / getTier say), in every format"""
+    mut, fmt, blanks = case
+    from mc.props.common import IT as _IT, PT as _PT, Textgrid as _TG
+    shared = _IT("phones", [(0.0, 1.0, "a"), (1.5, 2.0, "b")], 0.0, 3.0)
+    other = _PT("clicks", [(1.0, "c")], 0.0, 3.0)
+    tg1, tg2 = _TG(0.0, 3.0), _TG(0.0, 3.0)
+    tg1.addTier(shared)
+    tg1.addTier(_IT("words", [(0.0, 2.0, "w")], 0.0, 3.0))
+    tg2.addTier(shared)
+    tg2.addTier(_IT("segments", [(2.0, 3.0, "s")], 0.0, 3.0))
+    tg2.addTier(other)
+    if mut == "rename-to-new":
+        call(tg1.renameTier, "phones", "renamed")
+    elif mut == "rename-to-name-in-tg2":
+        call(tg1.renameTier, "phones", "segments")
+    elif mut == "replace":
+        call(tg1.replaceTier, "phones", _IT("phones", [(0.0, 3.0, "z")], 0.0, 3.0), "silence")
+    elif mut == "remove":
+        call(tg1.removeTier, "phones")
+    elif mut == "shift":
+        call(tg1.editTimestamps, 0.5, "silence")
+    elif mut == "merge":
+        call(tg1.mergeTiers)
+    names = list(tg2.tierNames)
+    want = [(nm, [tuple(e) for e in tg2.getTier(nm).entries]) for nm in names]
+    fn = os.path.join(scratch_dir(), "c02-shared.TextGrid")
+    st, r, _ = call(tg2.save, fn, fmt, blanks, None, None, None, "silence")
+    tag = f"tg1 and tg2 share the tier object 'phones'; after tg1 {mut}: tg2.save({fmt}, includeBlankSpaces={blanks})"
+    if st == "exc":
+        return 1, "X", None, [Viol("save-raised:" + type(r).__name__, f"{tag}: {r!r}")]
+    with open(fn, encoding="utf-8") as fd:
+        text = fd.read()
+    try:
+        dec = praatfmt.decode(text, fmt)
+    except praatfmt.FormatError as e:
+        return 1, "!", None, [Viol("independent-reader-rejects", f"{tag}: {e}")]
+    got = [(t["name"], [tuple(e) for e in t["entries"] if e[-1] != ""]) for t in dec["tiers"]]
+    viols = []
+    if got != want:
+        viols.append(Viol("file-differs-from-textgrid", f"{tag}: the file holds {got}; tg2 holds {want}"))
+    return 1, "ok", (mut, fmt), viols
+
+
 def layer_keywords_everywhere():
     for kw in D.KEYWORDS + ('a\n"IntervalTier"\nb', "a\nitem [2]:", 'q"', '""'):
         yield ("K", (kw, "ilabel1"), c01.skeleton(l1=kw), 1e-8)
@@ -215,6 +260,10 @@ def parts(tier):
                        "PYTHONCOERCECLOCALE=0) and in one where it is UTF-8: save x 4 formats x blank filling x non-ASCII text as interval label / point mark / "
                        "tier name: the save succeeds, the bytes are UTF-8 and decode (independent decoder) to the in-memory content, the library reads them back",
                   bounds={"environments": 2}, chunk=1),
+        InputPart("shared-tier-objects", lambda: ((m, f, b) for m in ("none", "rename-to-new", "rename-to-name-in-tg2", "replace", "remove", "shift", "merge")
+                                                  for f in FMTS for b in (True, False)), check_shared,
+                  rule="two textgrids holding the same tier object x 6 mutators applied to the first x the second written in 4 formats x blank filling: the "
+                       "file carries the second textgrid's own names, order and entries", bounds={}),
         InputPart("size", lambda: c01.layer_size(not quick), check,
                   rule="the size axis (shared with C01): 9-25 (thorough 100) tiers; tiers of 10-400 (thorough 1000) entries; labels and names with 8-30 quote "
                        "characters, 255-9000 characters, 10-40 lines, thousands of non-ASCII characters: the written text is well-formed in every "
